@@ -1124,6 +1124,15 @@ impl<'s> Semantics<'s> {
             // get started
             let dst = self.operand_load(block, &detail.operands[0])?;
 
+            // the target is read before the return address is pushed (`call rsp`)
+            let dst: Expression = if detail.operands[0].type_ == x86_op_type::X86_OP_REG {
+                let target = self.temp(0, dst.bits());
+                block.assign(target.clone(), dst);
+                target.into()
+            } else {
+                dst
+            };
+
             let ret_addr = self.instruction().address + self.instruction().size as u64;
 
             self.mode()
